@@ -104,7 +104,7 @@ func CheckC01Modular(c C01Modular, rec *Rec) error {
 }
 
 func TestC01Modular(t *testing.T) {
-	gg := genGenomeSpec(GenomeCfg{Modules: true, MinGenes: 1, Big: true, ModLinkW: true})
+	gg := genGenomeSpec(GenomeCfg{Modules: true, MinGenes: 1, Big: true, ModLinkW: true, ModLinkTr: true})
 	runProp(t, "C01", "modular", 1500, 30000, rapid.Map(gg, func(g GenomeSpec) C01Modular { return C01Modular{G: g} }), CheckC01Modular)
 }
 
